@@ -124,7 +124,7 @@ func zzvC03Scenario(base string, scn *zzvScn) *sched.Scenario {
 					}
 				})
 			}
-			x.OnStep = func(x *sched.Exec) { w.stepOracle() }
+			x.OnStep = func(x *sched.Exec) { w.stepOracle(x.LastKind) }
 			x.StateKey = func() uint64 {
 				h := uint64(0)
 				for _, c := range w.ctrs {
@@ -143,7 +143,17 @@ func zzvC03Scenario(base string, scn *zzvScn) *sched.Scenario {
 			pend := w.pending()
 			f := w.procs[0]
 			open := f.current.Load() != nil
-			clean := len(v) == 0
+			clean := len(v) == 0 // no panic/deadlock/step-oracle failure (use-after-unmap is recorded separately by the shim)
+			desc := func(name string) string {
+				d := ""
+				for _, c := range w.ctrs {
+					if c.name == name {
+						s := c.state.load()
+						d += fmt.Sprintf("[havePtr=%v ptrNil=%v locked=%v readers=%v extra=%v registered=%v]", s.havePtr(), c.ptr.count == nil, s.locked(), s.readers() != 0, s.extra() != 0, c.next.Load() != nil)
+					}
+				}
+				return d
+			}
 			for _, name := range zzvSortedKeys(w.begun) {
 				b := w.begun[name]
 				if scn.saturat {
@@ -153,17 +163,17 @@ func zzvC03Scenario(base string, scn *zzvScn) *sched.Scenario {
 					continue
 				}
 				if clean && per[name]+pend[name] != b {
-					v = append(v, fmt.Sprintf("final sum mismatch: persisted %d + pending %d != increments %d", per[name], pend[name], b))
+					v = append(v, fmt.Sprintf("final sum mismatch: persisted %d + pending %d != increments %d %s", per[name], pend[name], b, desc(name)))
 				}
 				if clean && open && pend[name] != 0 {
-					v = append(v, fmt.Sprintf("pending %d left although a counter file is open and all calls returned", pend[name]))
+					v = append(v, fmt.Sprintf("pending %d left although a counter file is open and all calls returned %s", pend[name], desc(name)))
 				}
 			}
 			if clean && !scn.saturat {
 				for _, c := range w.ctrs {
 					s := c.state.load()
 					if s.readers() != 0 {
-						v = append(v, fmt.Sprintf("state word left with readers=%#x locked=%v after all calls returned", s.readers(), s.locked()))
+						v = append(v, fmt.Sprintf("state word left with readers=%#x after all calls returned %s", s.readers(), desc(c.name)))
 					}
 				}
 			}
@@ -174,8 +184,34 @@ func zzvC03Scenario(base string, scn *zzvScn) *sched.Scenario {
 	}
 }
 
-// zzvSigC03 maps a violation message to its stable class.
-func zzvSigC03(msg string) string {
+// zzvFamily is the scenario family: "S3b-add-add-rotate-3thr" -> "S3".
+func zzvFamily(scn string) string {
+	if i := strings.Index(scn, "-"); i >= 0 {
+		scn = scn[:i]
+	}
+	return strings.TrimRight(scn, "abcdefghijklmnopqrstuvwxyz")
+}
+
+// zzvSigC03 maps a violation message to its stable class: the oracle
+// clause, the scenario family, the state descriptor of the counter, and
+// whether the same execution had already accessed unmapped memory.
+func zzvSigC03(f sched.Found, msg string) string {
+	if strings.HasPrefix(msg, "use-after-unmap") {
+		return zzvSigBase(msg)
+	}
+	sig := zzvSigBase(msg) + ":" + zzvFamily(f.Scenario)
+	if i := strings.Index(msg, "["); i >= 0 {
+		sig += ":" + msg[i:]
+	}
+	for _, m := range f.Messages {
+		if strings.HasPrefix(m, "use-after-unmap") {
+			return "after-stale-access:" + sig
+		}
+	}
+	return sig
+}
+
+func zzvSigBase(msg string) string {
 	switch {
 	case strings.HasPrefix(msg, "use-after-unmap"):
 		// "use-after-unmap: cas64 in A<B<C; mapping closed by X<Y<Z"
@@ -267,7 +303,7 @@ func TestVerifC03(t *testing.T) {
 }
 
 // zzvRecord folds explorer statistics into the worker result.
-func zzvRecord(res *vrep.Result, st sched.Stats, sig func(string) string) {
+func zzvRecord(res *vrep.Result, st sched.Stats, sig func(sched.Found, string) string) {
 	res.Evaluations += st.Executions
 	res.Transitions += st.Transitions
 	res.States += int64(st.States)
@@ -285,7 +321,7 @@ func zzvRecord(res *vrep.Result, st sched.Stats, sig func(string) string) {
 	}
 	for _, f := range st.Violations {
 		for _, m := range f.Messages {
-			res.Violate(sig(m), m, map[string]any{"scenario": f.Scenario, "bound": f.Bounds, "choices": f.Choices, "deviations": f.Devs, "messages": f.Messages, "steps": f.Steps})
+			res.Violate(sig(f, m), m, map[string]any{"scenario": f.Scenario, "bound": f.Bounds, "choices": f.Choices, "deviations": f.Devs, "messages": f.Messages, "steps": f.Steps})
 		}
 	}
 }
